@@ -62,6 +62,8 @@ func registry() map[string]PropSpec {
 				What: "same, fewer dimensions and more adjustments (repeated adjustments with conflicting skip flags)"},
 			{Pkg: ".", Name: "c11_step", Quick: map[string]int{"dims": 1, "adjs": 1}, Thorough: map[string]int{"dims": 2, "adjs": 2}, Unwind: [2]int{24, 32},
 				What: "InterpolateMatrixPermutation: a rejected permutation leaves command, label, key, env, plugins and matrix untouched"},
+			{Pkg: ".", Name: "c11_tuple", Quick: map[string]int{"long": 5}, Thorough: map[string]int{"long": 7}, Unwind: [2]int{32, 48},
+				What: "tuple equality is per dimension: two dimensions, one adjustment, permutation and adjustment values of 1 or `long` symbolic bytes over the characters that occur as constants in step_command_matrix.go (so separators of any internal encoding are in the alphabet): accepted iff equal in every dimension and not skipped"},
 			{Pkg: ".", Name: "tv_validate_permutation", Quick: map[string]int{}, Unwind: [2]int{64, 64},
 				What: "translator validation: a TestMatrix_ValidatePermutation_Multiple-style table, concrete, through the engine (all map iteration orders)"},
 		},
